@@ -3,6 +3,8 @@ From Coq Require Import String List.
 From TS Require Import Model.Str Model.Outcome Model.Unicode Model.Types Model.Parse Model.Lang.Common Model.Lang.Decl
                        Model.Lang.Swift Model.Lang.Scala Model.Lang.Go Model.Lang.Kotlin Model.Lang.Python Spec.C12Spec Proofs.C12Obs.
 From TS Require Proofs.C12 Proofs.C12_Swift Proofs.C12_Go Proofs.C12_Kotlin Proofs.C12_Python.
+From TS Require Import Model.MultiFile Model.Lang.TypeScript Spec.C12TSSpec.
+From TS Require Model.Writer Spec.C17Spec Proofs.C02_Witness Proofs.C12Multi Proofs.C12MultiGo Proofs.C12MultiSwift Proofs.C12MultiStateless Proofs.C12MultiTS Proofs.C12MultiWitness.
 Import ListNotations.
 From TS Require Props.C12.
 
@@ -102,3 +104,365 @@ Goal c12_py_known Proofs.C12.c12_py_cfg0 Proofs.C12.c12_py_default_pd = Some "C1
                     In (lit "parse_rfc3339") uses /\ ~ In (lit "parse_rfc3339") defs /\ c12_good uses defs = false.
 Proof. exact Props.C12.C12_python_default_translation_refuted. Qed.
 Print Assumptions Props.C12.C12_python_default_translation_refuted.
+Goal forall (uc : unicode) (cfg : py_config) (st : py_state) (pd : parsed) (text : str) (st' : py_state),
+    py_generate_multi uc cfg st pd = Ok (text, st') <->
+    exists ds, Proofs.C12Multi.py_multi_decls uc cfg st pd = Ok (ds, st') /\
+               text = py_begin_file cfg ++ py_write_all_imports st' ++ py_write_custom_translations st' ++
+                      List.concat (map py_render_decl ds).
+Proof. exact Props.C12.C12_multi_python_layout. Qed.
+Print Assumptions Props.C12.C12_multi_python_layout.
+Goal forall (uc : unicode) (cfg : py_config) (pd : parsed),
+    Proofs.C12Multi.c12_py_observe_multi uc cfg py_empty_state pd = c12_py_observe uc cfg pd.
+Proof. exact Props.C12.C12_multi_python_observe_initial. Qed.
+Print Assumptions Props.C12.C12_multi_python_observe_initial.
+Goal (forall st : py_state,
+     Proofs.C12Multi.c12_py_state_ok st = true <->
+     (py_type_variables st <> [] -> In (lit "TypeVar") (c12_py_imported st)) /\
+     (In (lit "datetime") (py_custom_types st) -> In (lit "datetime") (c12_py_imported st))) /\
+  Proofs.C12Multi.c12_py_state_ok py_empty_state = true.
+Proof. exact Props.C12.C12_multi_python_state_ok_meaning. Qed.
+Print Assumptions Props.C12.C12_multi_python_state_ok_meaning.
+Goal forall (uc : unicode) (cfg : py_config) (st0 : py_state) (pd : parsed),
+    Proofs.C12Multi.c12_py_state_ok st0 = true -> c12_py_dom cfg (items_of pd) = true ->
+    (forall uses defs, Proofs.C12Multi.c12_py_observe_multi uc cfg st0 pd = Ok (uses, defs) ->
+       c12_py_known cfg pd = None -> c12_good uses defs = true) /\
+    (forall ds st, Proofs.C12Multi.py_multi_decls uc cfg st0 pd = Ok (ds, st) -> Proofs.C12Multi.c12_py_state_ok st = true).
+Proof. exact Props.C12.C12_multi_python_file. Qed.
+Print Assumptions Props.C12.C12_multi_python_file.
+Goal forall (uc : unicode) (cfg : py_config) (st0 : py_state) (plan : list out_plan)
+         (files : list (str * Writer.gen_result)) (fin : outcome py_state),
+    Proofs.C12Multi.c12_py_state_ok st0 = true ->
+    generate_crates (Proofs.C12Multi.py_multi_gen uc cfg) st0 plan = (files, fin) ->
+    (forall i fname text,
+       nth_error files i = Some (fname, Writer.Generated text) ->
+       Forall (fun p => c12_py_dom cfg (items_of (op_data p)) = true) (firstn (S i) plan) ->
+       exists p st_i st_i' ds uses defs,
+         nth_error plan i = Some p /\ fname = op_file p /\ Proofs.C12Multi.c12_py_state_ok st_i = true /\
+         py_generate_multi uc cfg st_i (op_data p) = Ok (text, st_i') /\
+         Proofs.C12Multi.py_multi_decls uc cfg st_i (op_data p) = Ok (ds, st_i') /\
+         text = py_begin_file cfg ++ py_write_all_imports st_i' ++ py_write_custom_translations st_i' ++
+                List.concat (map py_render_decl ds) /\
+         Proofs.C12Multi.c12_py_observe_multi uc cfg st_i (op_data p) = Ok (uses, defs) /\
+         (c12_py_known cfg (op_data p) = None -> c12_good uses defs = true)) /\
+    (forall st', fin = Ok st' -> Forall (fun p => c12_py_dom cfg (items_of (op_data p)) = true) plan ->
+       Proofs.C12Multi.c12_py_state_ok st' = true).
+Proof. exact Props.C12.C12_multi_python. Qed.
+Print Assumptions Props.C12.C12_multi_python.
+Goal forall uc cfg st c im pd, Proofs.C12Multi.py_multi_gen uc cfg st c im pd = py_generate_multi uc cfg st pd.
+Proof. exact Props.C12.C12_multi_python_gen_meaning. Qed.
+Print Assumptions Props.C12.C12_multi_python_gen_meaning.
+Goal exists plan t_alpha st_fin,
+    Proofs.C12MultiWitness.y_plan Python Proofs.C12MultiWitness.ws_py_plain = Some plan /\
+    map op_crate plan = [lit "alpha"; lit "beta"] /\
+    forallb (fun p => c12_py_dom Proofs.C12MultiWitness.y_py_cfg (items_of (op_data p))) plan = true /\
+    forallb (fun p => Proofs.C12MultiWitness.y_none (c12_py_known Proofs.C12MultiWitness.y_py_cfg (op_data p))) plan = true /\
+    generate_crates (Proofs.C12Multi.py_multi_gen uc_exec Proofs.C12MultiWitness.y_py_cfg) py_empty_state plan =
+      ([(lit "alpha.py", Writer.Generated t_alpha); (lit "beta.py", Writer.Generated Proofs.C12MultiWitness.y_beta_plain_py)], Ok st_fin) /\
+    py_type_variables st_fin = [lit "T"] /\ py_custom_types st_fin = [lit "datetime"] /\
+    Proofs.C12MultiWitness.py_multi_observations Proofs.C12MultiWitness.y_py_cfg py_empty_state plan =
+      [(lit "alpha.py", Ok (Proofs.C12MultiWitness.y_py_uses_generic (lit "T"), Proofs.C12MultiWitness.y_py_defs_alpha));
+       (lit "beta.py", Ok ([lit "TypeVar"; lit "datetime"; lit "BaseModel"], Proofs.C12MultiWitness.y_py_defs_alpha))] /\
+    c12_good (Proofs.C12MultiWitness.y_py_uses_generic (lit "T")) Proofs.C12MultiWitness.y_py_defs_alpha = true /\
+    c12_good [lit "TypeVar"; lit "datetime"; lit "BaseModel"] Proofs.C12MultiWitness.y_py_defs_alpha = true.
+Proof. exact Props.C12.C12_multi_python_nonvacuous_plain. Qed.
+Print Assumptions Props.C12.C12_multi_python_nonvacuous_plain.
+Goal exists plan t_alpha t_beta st_fin,
+    Proofs.C12MultiWitness.y_plan Python Proofs.C12MultiWitness.ws_py_again = Some plan /\
+    map op_crate plan = [lit "alpha"; lit "beta"] /\
+    forallb (fun p => c12_py_dom Proofs.C12MultiWitness.y_py_cfg (items_of (op_data p))) plan = true /\
+    forallb (fun p => Proofs.C12MultiWitness.y_none (c12_py_known Proofs.C12MultiWitness.y_py_cfg (op_data p))) plan = true /\
+    generate_crates (Proofs.C12Multi.py_multi_gen uc_exec Proofs.C12MultiWitness.y_py_cfg) py_empty_state plan =
+      ([(lit "alpha.py", Writer.Generated t_alpha); (lit "beta.py", Writer.Generated t_beta)], Ok st_fin) /\
+    py_type_variables st_fin = [lit "T"; lit "U"] /\
+    Proofs.C12MultiWitness.py_multi_observations Proofs.C12MultiWitness.y_py_cfg py_empty_state plan =
+      [(lit "alpha.py", Ok (Proofs.C12MultiWitness.y_py_uses_generic (lit "T"), Proofs.C12MultiWitness.y_py_defs_alpha));
+       (lit "beta.py", Ok (Proofs.C12MultiWitness.y_py_uses_generic (lit "U"),
+                           lit "T" :: lit "U" :: tl Proofs.C12MultiWitness.y_py_defs_alpha))] /\
+    c12_good (Proofs.C12MultiWitness.y_py_uses_generic (lit "U")) (lit "T" :: lit "U" :: tl Proofs.C12MultiWitness.y_py_defs_alpha) = true.
+Proof. exact Props.C12.C12_multi_python_nonvacuous_again. Qed.
+Print Assumptions Props.C12.C12_multi_python_nonvacuous_again.
+Goal exists plan p_alpha p_beta t_alpha st1 t_beta st2 uses defs,
+    Proofs.C12MultiWitness.y_plan Python Proofs.C12MultiWitness.ws_py_plain = Some plan /\ plan = [p_alpha; p_beta] /\
+    py_generate_multi uc_exec Proofs.C12MultiWitness.y_py_cfg py_empty_state (op_data p_alpha) = Ok (t_alpha, st1) /\
+    Proofs.C12Multi.c12_py_state_ok st1 = true /\
+    Proofs.C12Multi.c12_py_state_ok (Proofs.C12MultiWitness.py_drain st1) = false /\
+    generate_crates (Proofs.C12MultiWitness.py_drained_gen Proofs.C12MultiWitness.y_py_cfg) py_empty_state plan =
+      ([(lit "alpha.py", Writer.Generated t_alpha); (lit "beta.py", Writer.Generated t_beta)], Ok st2) /\
+    t_beta <> Proofs.C12MultiWitness.y_beta_plain_py /\
+    Proofs.C12Multi.c12_py_observe_multi uc_exec Proofs.C12MultiWitness.y_py_cfg (Proofs.C12MultiWitness.py_drain st1) (op_data p_beta) = Ok (uses, defs) /\
+    In (lit "TypeVar") uses /\ ~ In (lit "TypeVar") defs /\ In (lit "datetime") uses /\ ~ In (lit "datetime") defs /\
+    c12_good uses defs = false.
+Proof. exact Props.C12.C12_multi_python_drain_regression. Qed.
+Print Assumptions Props.C12.C12_multi_python_drain_regression.
+Goal exists plan p_alpha p_beta t_alpha st1 uses defs,
+    Proofs.C12MultiWitness.y_plan Python Proofs.C12MultiWitness.ws_py_taint = Some plan /\ plan = [p_alpha; p_beta] /\
+    c12_py_dom Proofs.C12MultiWitness.y_py_cfg (items_of (op_data p_alpha)) = false /\
+    c12_py_dom Proofs.C12MultiWitness.y_py_cfg (items_of (op_data p_beta)) = true /\
+    c12_py_known Proofs.C12MultiWitness.y_py_cfg (op_data p_beta) = None /\
+    py_generate_multi uc_exec Proofs.C12MultiWitness.y_py_cfg py_empty_state (op_data p_alpha) = Ok (t_alpha, st1) /\
+    Proofs.C12Multi.c12_py_state_ok st1 = false /\
+    Proofs.C12Multi.c12_py_observe_multi uc_exec Proofs.C12MultiWitness.y_py_cfg st1 (op_data p_beta) = Ok (uses, defs) /\
+    In (lit "datetime") uses /\ ~ In (lit "datetime") defs /\ c12_good uses defs = false.
+Proof. exact Props.C12.C12_multi_python_earlier_dom_needed. Qed.
+Print Assumptions Props.C12.C12_multi_python_earlier_dom_needed.
+Goal forall (uc : unicode) (cfg : go_config) (st : go_state) (pd : parsed) (text : str) (st' : go_state),
+    go_generate_multi uc cfg st pd = Ok (text, st') <->
+    exists ds header st1,
+      Proofs.C12MultiGo.go_multi_decls uc cfg st pd = Ok (ds, st') /\ go_begin_file cfg st = Ok (header, st1) /\
+      text = header ++ go_write_all_imports st' ++ List.concat (map go_render_decl ds).
+Proof. exact Props.C12.C12_multi_go_layout. Qed.
+Print Assumptions Props.C12.C12_multi_go_layout.
+Goal forall (uc : unicode) (cfg : go_config) (pd : parsed),
+    Proofs.C12MultiGo.c12_go_observe_multi uc cfg [] pd = c12_go_observe uc cfg pd.
+Proof. exact Props.C12.C12_multi_go_observe_initial. Qed.
+Print Assumptions Props.C12.C12_multi_go_observe_initial.
+Goal forall (uc : unicode) (cfg : go_config) (st0 : go_state) (pd : parsed) (uses defs : list str),
+    Proofs.C12MultiGo.c12_go_observe_multi uc cfg st0 pd = Ok (uses, defs) -> c12_go_dom cfg (items_of pd) = true ->
+    c12_good uses defs = true.
+Proof. exact Props.C12.C12_multi_go_file. Qed.
+Print Assumptions Props.C12.C12_multi_go_file.
+Goal forall (uc : unicode), unicode_ok uc ->
+  forall (cfg : go_config) (st0 : go_state) (pd : parsed) (uses defs : list str),
+    Proofs.C12MultiGo.c12_go_observe_multi uc cfg st0 pd = Ok (uses, defs) -> c12_go_dom_acr cfg (items_of pd) = true ->
+    c12_good uses defs = true.
+Proof. exact Props.C12.C12_multi_go_file_acronyms. Qed.
+Print Assumptions Props.C12.C12_multi_go_file_acronyms.
+Goal forall (uc : unicode) (cfg : go_config) (st0 : go_state) (plan : list out_plan)
+         (files : list (str * Writer.gen_result)) (fin : outcome go_state),
+    generate_crates (Proofs.C12MultiGo.go_multi_gen uc cfg) st0 plan = (files, fin) ->
+    forall i fname text,
+      nth_error files i = Some (fname, Writer.Generated text) ->
+      exists p st_i st_i' ds header st1 uses defs,
+        nth_error plan i = Some p /\ fname = op_file p /\
+        go_generate_multi uc cfg st_i (op_data p) = Ok (text, st_i') /\
+        Proofs.C12MultiGo.go_multi_decls uc cfg st_i (op_data p) = Ok (ds, st_i') /\
+        go_begin_file cfg st_i = Ok (header, st1) /\
+        text = header ++ go_write_all_imports st_i' ++ List.concat (map go_render_decl ds) /\
+        Proofs.C12MultiGo.c12_go_observe_multi uc cfg st_i (op_data p) = Ok (uses, defs) /\
+        (c12_go_dom cfg (items_of (op_data p)) = true -> c12_good uses defs = true).
+Proof. exact Props.C12.C12_multi_go. Qed.
+Print Assumptions Props.C12.C12_multi_go.
+Goal forall (uc : unicode), unicode_ok uc ->
+  forall (cfg : go_config) (st0 : go_state) (plan : list out_plan)
+         (files : list (str * Writer.gen_result)) (fin : outcome go_state),
+    generate_crates (Proofs.C12MultiGo.go_multi_gen uc cfg) st0 plan = (files, fin) ->
+    forall i fname text,
+      nth_error files i = Some (fname, Writer.Generated text) ->
+      exists p st_i st_i' ds header st1 uses defs,
+        nth_error plan i = Some p /\ fname = op_file p /\
+        go_generate_multi uc cfg st_i (op_data p) = Ok (text, st_i') /\
+        Proofs.C12MultiGo.go_multi_decls uc cfg st_i (op_data p) = Ok (ds, st_i') /\
+        go_begin_file cfg st_i = Ok (header, st1) /\
+        text = header ++ go_write_all_imports st_i' ++ List.concat (map go_render_decl ds) /\
+        Proofs.C12MultiGo.c12_go_observe_multi uc cfg st_i (op_data p) = Ok (uses, defs) /\
+        (c12_go_dom_acr cfg (items_of (op_data p)) = true -> c12_good uses defs = true).
+Proof. exact Props.C12.C12_multi_go_acronyms. Qed.
+Print Assumptions Props.C12.C12_multi_go_acronyms.
+Goal exists plan t_alpha,
+    Proofs.C12MultiWitness.y_plan Go Proofs.C12MultiWitness.ws_py_plain = Some plan /\
+    map op_crate plan = [lit "alpha"; lit "beta"] /\
+    forallb (fun p => c12_go_dom Proofs.C12MultiWitness.y_go_cfg (items_of (op_data p))) plan = true /\
+    generate_crates (Proofs.C12MultiGo.go_multi_gen uc_exec Proofs.C12MultiWitness.y_go_cfg) [] plan =
+      ([(lit "alpha.go", Writer.Generated t_alpha); (lit "beta.go", Writer.Generated Proofs.C12MultiWitness.y_beta_go)],
+       Ok [lit "encoding/json"; lit "time"]) /\
+    Proofs.C12MultiWitness.go_multi_observations Proofs.C12MultiWitness.y_go_cfg [] plan =
+      [(lit "alpha.go", Ok ([lit "time"], [lit "json"; lit "time"])); (lit "beta.go", Ok ([], [lit "json"; lit "time"]))].
+Proof. exact Props.C12.C12_multi_go_nonvacuous. Qed.
+Print Assumptions Props.C12.C12_multi_go_nonvacuous.
+Goal forall (uc : unicode) (cfg : sw_config) (st : sw_state) (pd : parsed) (text : str) (st' : sw_state),
+    sw_generate_multi uc cfg st pd = Ok (text, st') <->
+    exists ds, Proofs.C12MultiSwift.sw_multi_decls uc cfg st pd = Ok (ds, st') /\
+               text = sw_begin_file cfg ++ List.concat (map sw_render_decl ds).
+Proof. exact Props.C12.C12_multi_swift_layout. Qed.
+Print Assumptions Props.C12.C12_multi_swift_layout.
+Goal forall (uc : unicode) (cfg : sw_config) (st0 : sw_state) (pd : parsed) (ds : list sw_decl) (st : sw_state),
+    Proofs.C12MultiSwift.sw_multi_decls uc cfg st0 pd = Ok (ds, st) -> c12_sw_dom cfg (items_of pd) = true ->
+    c12_sw_defs ds = [] /\ (st0 = true -> st = true) /\ (c12_sw_uses ds <> [] -> st = true).
+Proof. exact Props.C12.C12_multi_swift_file. Qed.
+Print Assumptions Props.C12.C12_multi_swift_file.
+Goal forall (uc : unicode) (cfg : sw_config) (st0 : sw_state) (plan : list out_plan)
+         (files : list (str * Writer.gen_result)) (fin : sw_state),
+    Forall (fun p => c12_sw_dom cfg (items_of (op_data p)) = true) plan ->
+    generate_crates (Proofs.C12MultiSwift.sw_multi_gen uc cfg) st0 plan = (files, Ok fin) ->
+    (st0 = true -> fin = true) /\
+    (forall i fname text, nth_error files i = Some (fname, Writer.Generated text) ->
+       exists p st_i st_i' ds,
+         nth_error plan i = Some p /\ fname = op_file p /\
+         sw_generate_multi uc cfg st_i (op_data p) = Ok (text, st_i') /\
+         Proofs.C12MultiSwift.sw_multi_decls uc cfg st_i (op_data p) = Ok (ds, st_i') /\
+         text = sw_begin_file cfg ++ List.concat (map sw_render_decl ds) /\
+         c12_sw_defs ds = [] /\
+         (c12_sw_uses ds <> [] -> fin = true)) /\
+    (fin = true ->
+       Proofs.C12MultiSwift.sw_multi_codable cfg (Ok fin) = Some (sw_codable_contents cfg) /\
+       c12_sw_decl_defs (sw_codable_void cfg) = [sw_CODABLE_VOID] /\
+       forall (s : Writer.fs) (now : Writer.mtime) (folder : str),
+         Writer.content (Writer.run s now (multi_outputs folder files (Proofs.C12MultiSwift.sw_multi_codable cfg (Ok fin))))
+                        (Spec.C17Spec.codable_path folder) = Some (sw_render_decl (sw_codable_void cfg)) /\
+         snd (Writer.run_full s now (multi_outputs folder files (Proofs.C12MultiSwift.sw_multi_codable cfg (Ok fin)))) = Writer.ExitOk).
+Proof. exact Props.C12.C12_multi_swift. Qed.
+Print Assumptions Props.C12.C12_multi_swift.
+Goal forall (cfg : sw_config) (fin : outcome sw_state),
+    Proofs.C12MultiSwift.sw_multi_codable cfg fin = match fin with Ok true => Some (sw_codable_contents cfg) | _ => None end.
+Proof. exact Props.C12.C12_multi_swift_codable_meaning. Qed.
+Print Assumptions Props.C12.C12_multi_swift_codable_meaning.
+Goal exists plan p_alpha p_beta ds_alpha ds_beta,
+    Proofs.C12MultiWitness.y_plan Swift Proofs.C12MultiWitness.ws_sw_unit = Some plan /\ plan = [p_alpha; p_beta] /\
+    map op_crate plan = [lit "alpha"; lit "beta"] /\
+    forallb (fun p => c12_sw_dom Proofs.C12MultiWitness.y_sw_cfg (items_of (op_data p))) plan = true /\
+    generate_crates (Proofs.C12MultiSwift.sw_multi_gen uc_exec Proofs.C12MultiWitness.y_sw_cfg) false plan =
+      ([(lit "Alpha.swift", Writer.Generated Proofs.C12MultiWitness.y_alpha_swift);
+        (lit "Beta.swift", Writer.Generated Proofs.C12MultiWitness.y_beta_swift)], Ok true) /\
+    Proofs.C12MultiSwift.sw_multi_decls uc_exec Proofs.C12MultiWitness.y_sw_cfg false (op_data p_alpha) = Ok (ds_alpha, true) /\
+    c12_sw_uses ds_alpha = [lit "CodableVoid"; lit "CodableVoid"] /\ c12_sw_defs ds_alpha = [] /\
+    Proofs.C12MultiSwift.sw_multi_decls uc_exec Proofs.C12MultiWitness.y_sw_cfg true (op_data p_beta) = Ok (ds_beta, true) /\
+    c12_sw_uses ds_beta = [] /\ c12_sw_defs ds_beta = [] /\
+    Writer.run_full [] 1%N (multi_outputs Proofs.C12MultiWitness.y_folder
+                              [(lit "Alpha.swift", Writer.Generated Proofs.C12MultiWitness.y_alpha_swift);
+                               (lit "Beta.swift", Writer.Generated Proofs.C12MultiWitness.y_beta_swift)]
+                              (Proofs.C12MultiSwift.sw_multi_codable Proofs.C12MultiWitness.y_sw_cfg (Ok true))) =
+      ([(Proofs.C12MultiWitness.y_path "Alpha.swift", (Proofs.C12MultiWitness.y_alpha_swift, 1%N));
+        (Proofs.C12MultiWitness.y_path "Beta.swift", (Proofs.C12MultiWitness.y_beta_swift, 1%N));
+        (Proofs.C12MultiWitness.y_path "Codable.swift", (Proofs.C12MultiWitness.y_codable_swift, 1%N))], Writer.ExitOk) /\
+    Spec.C17Spec.codable_path Proofs.C12MultiWitness.y_folder = Proofs.C12MultiWitness.y_path "Codable.swift".
+Proof. exact Props.C12.C12_multi_swift_nonvacuous. Qed.
+Print Assumptions Props.C12.C12_multi_swift_nonvacuous.
+Goal exists plan,
+    Proofs.C12MultiWitness.y_plan Swift Proofs.C12MultiWitness.ws_sw_unit = Some plan /\
+    generate_crates (Proofs.C12MultiWitness.sw_reset_gen Proofs.C12MultiWitness.y_sw_cfg) false plan =
+      ([(lit "Alpha.swift", Writer.Generated Proofs.C12MultiWitness.y_alpha_swift);
+        (lit "Beta.swift", Writer.Generated Proofs.C12MultiWitness.y_beta_swift)], Ok false) /\
+    Proofs.C12MultiSwift.sw_multi_codable Proofs.C12MultiWitness.y_sw_cfg (Ok false) = None /\
+    Writer.content (Writer.run [] 1%N (multi_outputs Proofs.C12MultiWitness.y_folder
+                      [(lit "Alpha.swift", Writer.Generated Proofs.C12MultiWitness.y_alpha_swift);
+                       (lit "Beta.swift", Writer.Generated Proofs.C12MultiWitness.y_beta_swift)]
+                      (Proofs.C12MultiSwift.sw_multi_codable Proofs.C12MultiWitness.y_sw_cfg (Ok false))))
+                   (Spec.C17Spec.codable_path Proofs.C12MultiWitness.y_folder) = None.
+Proof. exact Props.C12.C12_multi_swift_reset_regression. Qed.
+Print Assumptions Props.C12.C12_multi_swift_reset_regression.
+Goal forall (cfg : kt_config) (c : str),
+    kt_begin_file_multi cfg c = kt_render_header (Proofs.C12MultiStateless.kt_header_multi cfg c) /\
+    Proofs.C12MultiStateless.kt_header_multi cfg c =
+      match kt_header_of cfg with
+      | None => None
+      | Some h => Some {| kh_version := kh_version h; kh_package := kh_package h ++ lit "." ++ c; kh_imports := kh_imports h |}
+      end /\
+    c12_kt_defs (Proofs.C12MultiStateless.kt_header_multi cfg c) = c12_kt_defs (kt_header_of cfg).
+Proof. exact Props.C12.C12_multi_kotlin_header. Qed.
+Print Assumptions Props.C12.C12_multi_kotlin_header.
+Goal forall (uc : unicode) (cfg : kt_config) (c : str) (im : scoped) (pd : parsed) (text : str),
+    kt_generate_multi uc cfg c im pd = Ok text <->
+    exists ds, kt_decls uc cfg pd = Ok ds /\
+               text = kt_render_header (Proofs.C12MultiStateless.kt_header_multi cfg c) ++ kt_write_imports cfg im ++
+                      List.concat (map kt_render_decl ds).
+Proof. exact Props.C12.C12_multi_kotlin_layout. Qed.
+Print Assumptions Props.C12.C12_multi_kotlin_layout.
+Goal forall (uc : unicode) (cfg : kt_config) (st0 : unit) (plan : list out_plan)
+         (files : list (str * Writer.gen_result)) (fin : outcome unit),
+    generate_crates (Proofs.C12MultiStateless.kt_multi_gen uc cfg) st0 plan = (files, fin) ->
+    forall i fname text,
+      nth_error files i = Some (fname, Writer.Generated text) ->
+      exists p ds uses defs,
+        nth_error plan i = Some p /\ fname = op_file p /\
+        kt_generate_multi uc cfg (op_crate p) (op_imports p) (op_data p) = Ok text /\
+        kt_decls uc cfg (op_data p) = Ok ds /\
+        text = kt_render_header (Proofs.C12MultiStateless.kt_header_multi cfg (op_crate p)) ++ kt_write_imports cfg (op_imports p) ++
+               List.concat (map kt_render_decl ds) /\
+        Proofs.C12MultiStateless.c12_kt_observe_multi uc cfg (op_crate p) (op_data p) = Ok (uses, defs) /\
+        uses = c12_kt_uses ds /\ defs = c12_kt_defs (Proofs.C12MultiStateless.kt_header_multi cfg (op_crate p)) /\
+        (c12_kt_known cfg (op_data p) = None -> c12_good uses defs = true).
+Proof. exact Props.C12.C12_multi_kotlin. Qed.
+Print Assumptions Props.C12.C12_multi_kotlin.
+Goal exists plan t_alpha t_beta,
+    Proofs.C12MultiWitness.y_plan Kotlin Proofs.C12MultiWitness.ws_sw_unit = Some plan /\
+    forallb (fun p => Proofs.C12MultiWitness.y_none (c12_kt_known Proofs.C02_Witness.c02_w_kt_cfg (op_data p))) plan = true /\
+    generate_crates (Proofs.C12MultiStateless.kt_multi_gen uc_exec Proofs.C02_Witness.c02_w_kt_cfg) tt plan =
+      ([(lit "alpha.kt", Writer.Generated t_alpha); (lit "beta.kt", Writer.Generated t_beta)], Ok tt) /\
+    map (fun p => Proofs.C12MultiStateless.c12_kt_observe_multi uc_exec Proofs.C02_Witness.c02_w_kt_cfg (op_crate p) (op_data p)) plan =
+      [Ok ([lit "Serializable"], [lit "Serializable"; lit "SerialName"]);
+       Ok ([lit "Serializable"], [lit "Serializable"; lit "SerialName"])].
+Proof. exact Props.C12.C12_multi_kotlin_nonvacuous. Qed.
+Print Assumptions Props.C12.C12_multi_kotlin_nonvacuous.
+Goal forall (uc : unicode) (cfg : sc_config) (pd : parsed) (text : str),
+    sc_generate uc cfg pd = Ok text ->
+    exists head objs pkgs,
+      sc_begin_file cfg = Ok head /\ sc_decls uc cfg pd = Ok (objs, pkgs) /\
+      text = head ++
+             (if sc_unsigned_integer_used pd || negb (sc_is_empty (p_aliases pd))
+              then sc_begin_package_object cfg ++ List.concat (map sc_render_decl objs) ++ sc_end_package_object cfg else []) ++
+             (if negb (sc_is_empty (p_structs pd)) || negb (sc_is_empty (p_enums pd))
+              then sc_begin_package cfg ++ List.concat (map sc_render_decl pkgs) ++ sc_end_package cfg else []).
+Proof. exact Props.C12.C12_multi_scala_layout. Qed.
+Print Assumptions Props.C12.C12_multi_scala_layout.
+Goal forall (uc : unicode) (cfg : sc_config) (st0 : unit) (plan : list out_plan)
+         (files : list (str * Writer.gen_result)) (fin : outcome unit),
+    generate_crates (Proofs.C12MultiStateless.sc_multi_gen uc cfg) st0 plan = (files, fin) ->
+    forall i fname text,
+      nth_error files i = Some (fname, Writer.Generated text) ->
+      exists p head objs pkgs uses defs,
+        nth_error plan i = Some p /\ fname = op_file p /\
+        sc_generate uc cfg (op_data p) = Ok text /\
+        sc_begin_file cfg = Ok head /\ sc_decls uc cfg (op_data p) = Ok (objs, pkgs) /\
+        text = head ++
+               (if sc_unsigned_integer_used (op_data p) || negb (sc_is_empty (p_aliases (op_data p)))
+                then sc_begin_package_object cfg ++ List.concat (map sc_render_decl objs) ++ sc_end_package_object cfg else []) ++
+               (if negb (sc_is_empty (p_structs (op_data p))) || negb (sc_is_empty (p_enums (op_data p)))
+                then sc_begin_package cfg ++ List.concat (map sc_render_decl pkgs) ++ sc_end_package cfg else []) /\
+        c12_sc_observe uc cfg (op_data p) = Ok (uses, defs) /\
+        (c12_sc_dom (op_data p) = true -> c12_good uses defs = true).
+Proof. exact Props.C12.C12_multi_scala. Qed.
+Print Assumptions Props.C12.C12_multi_scala.
+Goal exists plan t_alpha t_beta,
+    Proofs.C12MultiWitness.y_plan Scala Proofs.C12MultiWitness.ws_sw_unit = Some plan /\
+    forallb (fun p => c12_sc_dom (op_data p)) plan = true /\
+    generate_crates (Proofs.C12MultiStateless.sc_multi_gen uc_exec Proofs.C02_Witness.c02_w_sc_cfg) tt plan =
+      ([(lit "alpha.scala", Writer.Generated t_alpha); (lit "beta.scala", Writer.Generated t_beta)], Ok tt) /\
+    map (fun p => c12_sc_observe uc_exec Proofs.C02_Witness.c02_w_sc_cfg (op_data p)) plan =
+      [Ok ([], []); Ok ([lit "UInt"], [lit "UByte"; lit "UShort"; lit "UInt"; lit "ULong"])].
+Proof. exact Props.C12.C12_multi_scala_nonvacuous. Qed.
+Print Assumptions Props.C12.C12_multi_scala_nonvacuous.
+Goal forall (ds : list ts_decl) (st : ts_state),
+    c12_ts_good ds st = true <->
+    (forall t, In t (c12_ts_translated ds) -> In t (c12_ts_handled st)) /\
+    (c12_ts_translated ds <> [] -> forall h, In h c12_ts_helpers -> In h (c12_ts_defs st)).
+Proof. exact Props.C12.C12_multi_typescript_good_meaning. Qed.
+Print Assumptions Props.C12.C12_multi_typescript_good_meaning.
+Goal forall (uc : unicode) (cfg : ts_config) (st : ts_state) (im : scoped) (pd : parsed) (text : str) (st' : ts_state),
+    ts_generate_multi uc cfg st im pd = Ok (text, st') <->
+    exists ds, Proofs.C12MultiTS.ts_multi_decls uc cfg st pd = Ok (ds, st') /\
+               text = ts_begin_file cfg ++ ts_write_imports im ++ List.concat (map ts_render_decl ds) ++ ts_end_file st'.
+Proof. exact Props.C12.C12_multi_typescript_layout. Qed.
+Print Assumptions Props.C12.C12_multi_typescript_layout.
+Goal forall (uc : unicode) (cfg : ts_config) (st0 : ts_state) (pd : parsed) (ds : list ts_decl) (st : ts_state),
+    Proofs.C12MultiTS.ts_multi_decls uc cfg st0 pd = Ok (ds, st) ->
+    incl (c12_ts_handled st0) (c12_ts_handled st) /\ c12_ts_good ds st = true.
+Proof. exact Props.C12.C12_multi_typescript_file. Qed.
+Print Assumptions Props.C12.C12_multi_typescript_file.
+Goal forall (uc : unicode) (cfg : ts_config) (st0 : ts_state) (plan : list out_plan)
+         (files : list (str * Writer.gen_result)) (fin : outcome ts_state),
+    generate_crates (Proofs.C12MultiTS.ts_multi_gen uc cfg) st0 plan = (files, fin) ->
+    forall i fname text,
+      nth_error files i = Some (fname, Writer.Generated text) ->
+      exists p st_i st_i' ds,
+        nth_error plan i = Some p /\ fname = op_file p /\
+        ts_generate_multi uc cfg st_i (op_imports p) (op_data p) = Ok (text, st_i') /\
+        Proofs.C12MultiTS.ts_multi_decls uc cfg st_i (op_data p) = Ok (ds, st_i') /\
+        text = ts_begin_file cfg ++ ts_write_imports (op_imports p) ++ List.concat (map ts_render_decl ds) ++ ts_end_file st_i' /\
+        incl (c12_ts_handled st0) (c12_ts_handled st_i) /\
+        incl (c12_ts_handled st_i) (c12_ts_handled st_i') /\
+        c12_ts_good ds st_i' = true.
+Proof. exact Props.C12.C12_multi_typescript. Qed.
+Print Assumptions Props.C12.C12_multi_typescript.
+Goal exists plan p_alpha p_beta t_alpha ds_alpha ds_beta,
+    Proofs.C12MultiWitness.y_plan TypeScript Proofs.C12MultiWitness.ws_py_plain = Some plan /\ plan = [p_alpha; p_beta] /\
+    generate_crates (Proofs.C12MultiTS.ts_multi_gen uc_exec Proofs.C12MultiWitness.y_ts_cfg) [] plan =
+      ([(lit "alpha.ts", Writer.Generated t_alpha); (lit "beta.ts", Writer.Generated Proofs.C12MultiWitness.y_beta_ts)],
+       Ok [(lit "Date", [lit "at"])]) /\
+    Proofs.C12MultiTS.ts_multi_decls uc_exec Proofs.C12MultiWitness.y_ts_cfg [] (op_data p_alpha) = Ok (ds_alpha, [(lit "Date", [lit "at"])]) /\
+    c12_ts_translated ds_alpha = [lit "Date"] /\ c12_ts_good ds_alpha [(lit "Date", [lit "at"])] = true /\
+    c12_ts_good ds_alpha [] = false /\
+    Proofs.C12MultiTS.ts_multi_decls uc_exec Proofs.C12MultiWitness.y_ts_cfg [(lit "Date", [lit "at"])] (op_data p_beta) =
+      Ok (ds_beta, [(lit "Date", [lit "at"])]) /\
+    c12_ts_translated ds_beta = [] /\ c12_ts_defs [(lit "Date", [lit "at"])] = c12_ts_helpers.
+Proof. exact Props.C12.C12_multi_typescript_nonvacuous. Qed.
+Print Assumptions Props.C12.C12_multi_typescript_nonvacuous.
